@@ -453,7 +453,7 @@ var (
 		rapid.StringMatching(`[0-9a-fA-F]{1,4}`),
 		rapid.SampledFrom([]string{"0", "00", "000", "0000", "00000", "ffff", "FFFF", "fffff", "10000", "g", "", "1", "12345", "-1", "+1", "0x1", "z"}),
 	)
-	zone = rapid.SampledFrom([]string{"", "", "", "", "%eth0", "%", "%a%b", "%1", "%%", "% ", "%é", "%]", "%eth0 ", "%" + strings.Repeat("z", 15), "%" + strings.Repeat("z", 16), "%" + strings.Repeat("z", 64), "%" + strings.Repeat("z", 300), "%\x00", "%e\u0301", "%eth0%eth1", "%:", "%."})
+	zone = rapid.SampledFrom([]string{"", "", "", "", "%eth0", "%", "%a%b", "%1", "%%", "% ", "%é", "%]", "%eth0 ", "%" + strings.Repeat("z", 15), "%" + strings.Repeat("z", 16), "%" + strings.Repeat("z", 64), "%" + strings.Repeat("z", 300), "%\x00", "%e\u0301", "%eth0%eth1", "%:", "%.", "%25", "%250", "%2500", "%25eth0", "%2525", "%25%25", "%2", "%5"})
 	port = rapid.OneOf(
 		rapid.SampledFrom([]string{"0", "1", "53", "80", "443", "65535", "65536", "65534", "99999", "065535", "00080", "0000000080", "", "+80", "-80", "８０", "80 ", " 80", "0x50", "8e1", "1234567890123456789012345", "655350", "4294967376", "18446744073709551696"}),
 		rapid.Map(rapid.IntRange(0, 65535), itoa),
